@@ -6,7 +6,9 @@ use crate::rng::Rng;
 use rooc::model_transformer::{Constraint, Exp, Model};
 use rooc::{BinOp, Comparison, OptimizationType, UnOp, VariableType};
 
-pub struct Spelling { pub aliases: bool, pub implicit_mul: bool, pub redundant_parens: bool, pub named_consts: bool }
+/// `minimal_parens`: operands are left unparenthesised where the DOCUMENTED precedence / associativity of the language makes
+/// the grouping unambiguous (table `level` below, written from the language reference, not from rooc's parser tables)
+pub struct Spelling { pub aliases: bool, pub implicit_mul: bool, pub redundant_parens: bool, pub named_consts: bool, pub minimal_parens: bool }
 
 pub struct Printer<'a> { pub r: &'a mut Rng, pub sp: Spelling, pub consts: Vec<(String, f64)> }
 
@@ -15,7 +17,37 @@ fn lit(v: f64) -> String {
     if v.fract() == 0.0 && v.abs() < 1e15 { format!("{}", v as i64) } else { format!("{}", v) }
 }
 
+#[derive(Clone, Copy, PartialEq)]
+enum Assoc { Left, Right }
+/// (precedence level, associativity, operator id, is-logic) of a binary node, lowest binding first:
+/// `implies` (right-associative) and `iff` (left) < `or` < `xor` < `and` < `+ -` < `* /`
+fn level(e: &Exp) -> Option<(u8, Assoc, u8, bool)> {
+    match e {
+        Exp::Implies(..) | Exp::BinOp(BinOp::Implies, ..) => Some((1, Assoc::Right, 0, true)),
+        Exp::Iff(..) | Exp::BinOp(BinOp::Iff, ..) => Some((1, Assoc::Left, 1, true)),
+        Exp::BinOp(BinOp::Or, ..) => Some((2, Assoc::Left, 2, true)),
+        Exp::Xor(..) | Exp::BinOp(BinOp::Xor, ..) => Some((3, Assoc::Left, 3, true)),
+        Exp::BinOp(BinOp::And, ..) => Some((4, Assoc::Left, 4, true)),
+        Exp::BinOp(BinOp::Add, ..) => Some((6, Assoc::Left, 5, false)),
+        Exp::BinOp(BinOp::Sub, ..) => Some((6, Assoc::Left, 6, false)),
+        Exp::BinOp(BinOp::Mul, ..) => Some((7, Assoc::Left, 7, false)),
+        Exp::BinOp(BinOp::Div, ..) => Some((7, Assoc::Left, 8, false)),
+        _ => None,
+    }
+}
+
 impl<'a> Printer<'a> {
+    /// an operand of the binary node `parent`: bare when the documented grammar groups it the same way
+    fn operand(&mut self, parent: &Exp, child: &Exp, right: bool, logic: bool) -> String {
+        if self.sp.minimal_parens && self.r.chance(2, 3) {
+            if let (Some((pp, pa, pid, pl)), Some((cp, _, cid, cl))) = (level(parent), level(child)) {
+                let tighter = cp > pp && pl == cl;
+                let same_level = cp == pp && (pid == cid || pp != 1) && ((pa == Assoc::Left && !right) || (pa == Assoc::Right && right));
+                if tighter || same_level { return self.exp(child); }
+            }
+        }
+        if logic { self.batom(child) } else { self.atom(child) }
+    }
     fn number(&mut self, v: f64) -> String {
         if v < 0.0 || v.is_sign_negative() { return format!("(0 - {})", self.number(-v)); }
         if self.sp.named_consts && self.r.chance(1, 4) {
@@ -46,16 +78,16 @@ impl<'a> Printer<'a> {
             _ => self.atom(e),
         }
     }
-    fn lbin(&mut self, op: &str, a: &Exp, b: &Exp) -> String {
-        let l = self.batom(a);
-        let r = self.batom(b);
+    fn lbin(&mut self, parent: &Exp, op: &str, a: &Exp, b: &Exp) -> String {
+        let l = self.operand(parent, a, false, true);
+        let r = self.operand(parent, b, true, true);
         let s = format!("{} {} {}", l, op, r);
         self.wrap(s)
     }
     fn wrap(&mut self, s: String) -> String { if self.sp.redundant_parens && self.r.chance(1, 6) { format!("({})", s) } else { s } }
-    fn bin(&mut self, op: &str, a: &Exp, b: &Exp) -> String {
-        let l = self.atom(a);
-        let r = self.atom(b);
+    fn bin(&mut self, parent: &Exp, op: &str, a: &Exp, b: &Exp) -> String {
+        let l = self.operand(parent, a, false, false);
+        let r = self.operand(parent, b, true, false);
         let s = format!("{} {} {}", l, op, r);
         self.wrap(s)
     }
@@ -78,14 +110,14 @@ impl<'a> Printer<'a> {
             Exp::And(es) => { let op = if al && self.r.chance(1, 2) { "&&" } else { "and" }; self.nary(op, "true", es) }
             Exp::Or(es) => { let op = if al && self.r.chance(1, 2) { "||" } else { "or" }; self.nary(op, "false", es) }
             Exp::Not(x) | Exp::UnOp(UnOp::Not, x) => { let a = self.batom(x); if al && self.r.chance(1, 2) { format!("!{}", a) } else { format!("not {}", a) } }
-            Exp::Xor(a, b) | Exp::BinOp(BinOp::Xor, a, b) => self.lbin("xor", a, b),
-            Exp::Implies(a, b) | Exp::BinOp(BinOp::Implies, a, b) => { let op = if al && self.r.chance(1, 2) { "->" } else { "implies" }; self.lbin(op, a, b) }
-            Exp::Iff(a, b) | Exp::BinOp(BinOp::Iff, a, b) => { let op = if al && self.r.chance(1, 2) { "<->" } else { "iff" }; self.lbin(op, a, b) }
-            Exp::BinOp(BinOp::And, a, b) => { let op = if al && self.r.chance(1, 2) { "&&" } else { "and" }; self.lbin(op, a, b) }
-            Exp::BinOp(BinOp::Or, a, b) => { let op = if al && self.r.chance(1, 2) { "||" } else { "or" }; self.lbin(op, a, b) }
-            Exp::BinOp(BinOp::Add, a, b) => self.bin("+", a, b),
-            Exp::BinOp(BinOp::Sub, a, b) => self.bin("-", a, b),
-            Exp::BinOp(BinOp::Div, a, b) => self.bin("/", a, b),
+            Exp::Xor(a, b) | Exp::BinOp(BinOp::Xor, a, b) => self.lbin(e, "xor", a, b),
+            Exp::Implies(a, b) | Exp::BinOp(BinOp::Implies, a, b) => { let op = if al && self.r.chance(1, 2) { "->" } else { "implies" }; self.lbin(e, op, a, b) }
+            Exp::Iff(a, b) | Exp::BinOp(BinOp::Iff, a, b) => { let op = if al && self.r.chance(1, 2) { "<->" } else { "iff" }; self.lbin(e, op, a, b) }
+            Exp::BinOp(BinOp::And, a, b) => { let op = if al && self.r.chance(1, 2) { "&&" } else { "and" }; self.lbin(e, op, a, b) }
+            Exp::BinOp(BinOp::Or, a, b) => { let op = if al && self.r.chance(1, 2) { "||" } else { "or" }; self.lbin(e, op, a, b) }
+            Exp::BinOp(BinOp::Add, a, b) => self.bin(e, "+", a, b),
+            Exp::BinOp(BinOp::Sub, a, b) => self.bin(e, "-", a, b),
+            Exp::BinOp(BinOp::Div, a, b) => self.bin(e, "/", a, b),
             Exp::BinOp(BinOp::Mul, a, b) => {
                 if self.sp.implicit_mul && self.r.chance(1, 3) {
                     if let Exp::Number(v) = &**a {
@@ -97,7 +129,7 @@ impl<'a> Printer<'a> {
                         }
                     }
                 }
-                self.bin("*", a, b)
+                self.bin(e, "*", a, b)
             }
             Exp::UnOp(UnOp::Neg, x) => format!("-{}", self.atom(x)),
         }
